@@ -114,7 +114,10 @@ impl RevocationBitmap {
     // This fix checks if the encoded string it receives as input has undergone such process
     // and undo the inner Base64 encoding before processing the input further.
     let mut data = Cow::Borrowed(data.as_ref());
-    if !data.starts_with("eJy") {
+    // The zlib default compression header (0x78 0x9C) always encodes to `eJ` followed by one of `w`, `x`, `y`, `z`,
+    // depending on the first byte of the deflate stream, whereas a doubly encoded bitmap starts with `ZUp`
+    // (Base64 of `eJ`). Testing for `eJy` rejected every bitmap whose compressed data starts differently.
+    if !data.starts_with("eJ") {
       // Base64 encoded zlib default compression header
       let decoded = BaseEncoding::decode(&data, Base::Base64)
         .map_err(|e| RevocationError::Base64DecodingError(data.into_owned(), e))?;
